@@ -691,15 +691,17 @@ def external_oracle(spec):
 @st.composite
 def chol_case(draw, tier):
     if draw(st.integers(0, 2)) == 0:
-        n = draw(st.integers(2, 6))
+        n = draw(st.sampled_from([2, 3, 4, 5, 6, 6, 7, 7]))
         case = draw(obs_list_case(tier, n, n, single=draw(st.booleans()), with_cov=draw(st.booleans()), idl_mode='identical',
                                   derived=False, own='always', distinct=True, lmin=30))
-        return {'flavour': 'obs', 'case': case}
+        # eigenvalue-smoothed correlation matrices (as the correlated fits hand them over): the diagonal is no longer one
+        return {'flavour': 'obs', 'case': case, 'smooth': draw(st.sampled_from([None] + list(range(3, n - 1))))}   # admissible: 2 < E < n - 1
     n = draw(st.integers(1, 8))
     m = draw(st.integers(1, n))
     B = [[draw(gen.fl(-1, 1)) for _ in range(m)] for _ in range(n)]
     return {'flavour': 'synthetic', 'B': B, 'eps': draw(st.sampled_from([0.02, 0.1, 1.0])),
-            'errs': [draw(st.one_of(gen.fl(0.01, 10.0), st.sampled_from([1.0, 1e-3, 1e3]))) for _ in range(n)]}
+            'errs': [draw(st.one_of(gen.fl(0.01, 10.0), st.sampled_from([1.0, 1e-3, 1e3]))) for _ in range(n)],
+            'smooth': draw(st.sampled_from([None, None] + list(range(2, n))))}
 
 
 def chol_oracle(spec):
@@ -707,9 +709,14 @@ def chol_oracle(spec):
     labs = {'flavour:' + spec['flavour']}
     if spec['flavour'] == 'obs':
         obs, _ = analysed(pe, spec['case'])
-        corr = np.asarray(pe.covariance(obs, correlation=True))
         e = np.array([float(o.dvalue) for o in obs])
-        C = np.asarray(pe.covariance(obs))
+        if spec.get('smooth'):
+            corr = np.asarray(pe.covariance(obs, correlation=True, smooth=int(spec['smooth'])))
+            C = corr * np.outer(e, e)
+            labs.add('smoothed')
+        else:
+            corr = np.asarray(pe.covariance(obs, correlation=True))
+            C = np.asarray(pe.covariance(obs))
     else:
         B = np.array(spec['B'], dtype=float)
         A = B @ B.T + spec['eps'] * np.eye(len(B))
@@ -717,6 +724,14 @@ def chol_oracle(spec):
         corr = A * np.outer(d, d)
         np.fill_diagonal(corr, 1.0)
         corr = 0.5 * (corr + corr.T)
+        if spec.get('smooth'):
+            # the smallest E eigenvalues replaced by their mean (own lines, trace preserving)
+            E = int(spec['smooth'])
+            w, V = np.linalg.eigh(corr)
+            w[:E] = np.mean(w[:E])
+            corr = (V * w) @ V.T
+            corr = 0.5 * (corr + corr.T)
+            labs.add('smoothed')
         e = np.array(spec['errs'], dtype=float)
         C = corr * np.outer(e, e)
     n = len(e)
